@@ -82,7 +82,7 @@ import json
 import os
 import re
 
-from checks import ext_cmdline
+from checks import ext_cmdline, ext_incsearch
 from vlib import aslrun, build, drvrun, tlc
 from vlib.aslrun import INCLUDE
 from vlib.common import CheckError, Phase, log, rng
@@ -95,6 +95,7 @@ DEFAULT_VEC = {"L": "none", "u": False, "C": False, "s": False, "I": False, "g":
                "n": False, "q": True, "A": False, "r": False, "E": "stderr", "gnu": False, "radix": "none",
                "P": False, "M": False, "share": "none", "h": False, "split": "none", "src": "argv", "cwd": "parent",
                "out": "default", "lang": "C", "langvar": "LANG"}
+DECOY = "\terror\t\"a decoy file in the working directory was read\"\n"      # whatever reads it changes the outcome
 GEN_INCLUDES = {"ginc/gi1.inc": "\tifndef\tgival\ngival\tequ\t5\n\tendif\n"}     # found only through -i {ROOT}/ginc
 GEN_PROGRAMS = {
     # ---- every report option has something to write: an INCLUDE found only through -i (leaves a stale errno), IFEXIST
@@ -204,13 +205,17 @@ def make_job(src, vec):
         job["_p"] = "%s/%s.p" % (name, name)
         return job
     opts = vector_opts(vec, src["stringify"])
-    cwd = {"srcdir": name, "parent": ".", "elsewhere": "work"}[vec["cwd"]]
+    where, _, decoy = vec["cwd"].partition("_")          # "<dir>_decoy": the working directory holds decoy include files
+    cwd = {"srcdir": name, "parent": ".", "elsewhere": "work"}[where]
     spath = {"srcdir": "%s.asm" % name, "parent": "%s/%s.asm" % (name, name),
-             "elsewhere": "{ROOT}/%s/%s.asm" % (name, name)}[vec["cwd"]]
+             "elsewhere": "{ROOT}/%s/%s.asm" % (name, name)}[where]
     job["cwd"] = cwd
     env = {}
     argv = list(base)
     files = job.setdefault("files", {})
+    if decoy:
+        for n in src.get("decoys", ()):
+            files[os.path.normpath(os.path.join(cwd, n))] = DECOY
     files["lst/.keep"] = ""
     files["outd/.keep"] = ""
     files["work/.keep"] = ""
@@ -268,7 +273,7 @@ def mask(data):
     return data
 
 
-_INC = re.compile(rb"^\s*(?:\S+:?\s+)?include\s+\"?([^\s\"';]+)", re.I | re.M)
+_INC = re.compile(rb"^\s*(?:\S+:?\s+)?b?include\s+\"?([^\s\"';,]+)", re.I | re.M)
 _FUNC = re.compile(rb"^\S+\s+function\s", re.I | re.M)
 _SH7K = re.compile(rb"^\s*cpu\s+sh7", re.I | re.M)
 
@@ -305,17 +310,37 @@ def source_text(path, dirs, seen=None):
     return b"\n".join(out)
 
 
+def decoy_names(text, srcdir_has, incdirs):
+    """the file names (as asl probes them: as written, + .inc when there is no suffix) that this source text looks up
+    with INCLUDE / BINCLUDE and that are found through the -i include path only - candidates for a decoy of the same
+    name in the working directory.  srcdir_has(name) -> bool; incdirs: real directories or {relative name: text}"""
+    out = []
+    for m in _INC.finditer(text):
+        n = m.group(1).decode("latin-1")
+        if "." not in os.path.basename(n):
+            n += ".inc"
+        if n.startswith("/") or n in out or srcdir_has(n):
+            continue
+        if any((n in d) if isinstance(d, (dict, set)) else os.path.isfile(os.path.join(d, n)) for d in incdirs):
+            out.append(n)
+    return out
+
+
 def sources(tier, r):
     tests = list(aslrun.corpus())
     r.shuffle(tests)            # the seed decides which rotation of the design a source gets
     out = []
     for (name, d, asm, flags) in tests:
         text = source_text(asm, [INCLUDE])
+        own = b"\n".join(open(os.path.join(d, f), "rb").read() for f in sorted(os.listdir(d))
+                         if f.lower().endswith((".asm", ".inc")) and os.path.isfile(os.path.join(d, f)))
         out.append({"name": name, "copy": d, "flags": flags, "stringify": b"\\{" in text,
-                    "mechanism": mechanism(text), "big": len(text) > 400000})
+                    "mechanism": mechanism(text), "big": len(text) > 400000,
+                    "decoys": decoy_names(own, lambda n, d=d: os.path.isfile(os.path.join(d, n)), [INCLUDE])})
     for name, text in GEN_PROGRAMS.items():
         out.append({"name": name, "copy": None, "text": text, "flags": ["-i", "{ROOT}/ginc"], "stringify": "\\{" in text,
-                    "mechanism": mechanism(text.encode("latin-1")), "generated": True})
+                    "mechanism": mechanism(text.encode("latin-1")), "generated": True,
+                    "decoys": decoy_names(text.encode("latin-1"), lambda n: False, [{k[len("ginc/"):] for k in GEN_INCLUDES}])})
     return out
 
 
@@ -373,6 +398,7 @@ def attribute(rep, bld, failing, plain):
 def main(tier):
     rep = Report(PID, tier)
     bld = build.get("hook")
+    incsearch = ext_incsearch.start(bld, tier)      # extension: include search x working directory, works beside the phases below
     rep.assumptions += ["the specification contributes the option partition, the covering array and the model-level "
                         "non-interference check; the verdict is differential execution of the real asl",
                         "byte comparison and date/time masking (Python) are trusted"]
@@ -479,6 +505,7 @@ def main(tier):
     rep.traces(len(jobs))
     for (s, tag, job) in jobs[2:5]:
         rep.sample({"source": s["name"], "argv": job["argv"], "env": job.get("env"), "cwd": job.get("cwd")})
+    ext_incsearch.finish(rep, incsearch)   # extension: the working directory and what lies in it (checks/ext_incsearch.py)
     ext_cmdline.run(rep, bld, tier)        # extension: the command-line / option layer (checks/ext_cmdline.py)
     return rep.finish(
         rule="configurations = TLC-built designs over 25 factors (report options, option source, cwd, -o, LANG/LC_ALL): "
